@@ -19,8 +19,8 @@ __getitem__`, `CodeObjectCache._get_key`):
         if self._cache.has(fn, cache_subkey):                  -- has1 true / has2 true
           factory = self._cached_factory(fn, cache_subkey)     -- get1 true / get1c true / get2 true
         else:
-          nodes, ctx = super().transform_function(fn, ...)     -- xform  (transform_ast runs here; counted in `xlog`)
-          factory = _PythonFnFactory(...); factory.create(...)
+          nodes, ctx = super().transform_function(fn, ...)     -- xform  (parse + transform_ast + factory.create; a
+          factory = _PythonFnFactory(...); factory.create(...)     --   success is counted in `xlog`; an exception goes to `rel none`)
           self._cache[fn][cache_subkey] = factory              -- st1: parent = _cache.get(code); st1c: _cache[code] = {}
                                                                -- st2: parent[subkey] = factory
                                                                -- rel    (end of `with`, also on exception)
@@ -38,8 +38,10 @@ CPython are part of the model because the code depends on them:
   (`gc`);
 * `d[k] = v` with an equal key already present keeps the old key object.
 
-`transform` is the uninterpreted function `T (code object) (options) (sig of the requester's
-namespace)`: the source text is found through the code *object* (`co_filename`, `co_firstlineno` —
+`transform` is the uninterpreted partial function `T (code object) (options) (sig of the requester's
+namespace)` (`none` = the conversion raises, e.g. `UnsupportedLanguageElementError`; the exception
+leaves the `with` block, which releases the lock, and nothing is cached — a later request retries):
+the source text is found through the code *object* (`co_filename`, `co_firstlineno` —
 the file name is not part of the value, and neither are annotations, decorators or default
 expressions of the `def`), and the implementation feeds the namespace (globals + closure values) of
 the function that happens to trigger the conversion to the directive resolver and to the namer.
@@ -127,7 +129,7 @@ def Pc.locked {Factory : Type} : Pc Factory → Bool
 
 /-- A thread: remaining requests (the head is the one in progress when `pc ≠ idle`) and the
 outcomes of the finished ones: `some f` = the request returned `f.instantiate(own environment)`,
-`none` = it raised `KeyError`. -/
+`none` = it raised (the conversion's own error, or `KeyError` from the cache). -/
 structure Thread (Opts Factory : Type) where
   pc : Pc Factory
   todo : List (Request Opts)
@@ -135,7 +137,8 @@ structure Thread (Opts Factory : Type) where
 
 /-- Global state.  `heap` holds the bucket objects (index = object identity; the first component is
 ghost: the code value under which the bucket was created).  `lock` = owner and recursion depth of the
-`RLock`.  `xlog` is the history of `transform_ast` invocations. -/
+`RLock`.  `xlog` is the history of successful transformations (a conversion that raises is not
+cached and is retried by every request; it is not counted). -/
 structure State (Opts Factory : Type) where
   outer : List (Code × Nat)
   heap : List (Nat × List (Opts × Factory))
@@ -175,7 +178,7 @@ def table (s : State Opts Factory) (c : Code) (o : Opts) : Option Factory :=
 def miss (lk : Bool) : Pc Factory := if lk then .xform else .acq
 
 /-- Control: what thread `t`, executing request `r` at `pc`, does next in state `s`. -/
-def action (T : Code → Opts → Nat → Factory) (s : State Opts Factory) (t : Tid)
+def action (T : Code → Opts → Nat → Option Factory) (s : State Opts Factory) (t : Tid)
     (r : Request Opts) : Pc Factory → Eff Opts Factory × Next Factory
   | .idle => (.nop, .goto (.has1 false))
   | .has1 lk =>
@@ -197,7 +200,10 @@ def action (T : Code → Opts → Nat → Factory) (s : State Opts Factory) (t :
       match s.lock with
       | none => (.acquire, .goto (.has1 true))
       | some (h, _) => if h = t then (.acquire, .goto (.has1 true)) else (.nop, .blocked)
-  | .xform => (.logx r.code r.opts, .goto (.st1 (T r.code r.opts r.env.sig)))
+  | .xform =>
+      match T r.code r.opts r.env.sig with
+      | some f => (.logx r.code r.opts, .goto (.st1 f))
+      | none => (.nop, .goto (.rel none false))        -- the conversion raises: `with` releases, nothing is stored
   | .st1 f =>
       match ofind r.code s.outer with
       | some b => (.nop, .goto (.st2 f b))
@@ -237,7 +243,7 @@ def applyNext (th : Thread Opts Factory) (r : Request Opts) : Next Factory → T
   | .blocked => th
 
 /-- One step of thread `t` (a no-op if `t` does not exist, has nothing to do, or is blocked). -/
-def stepThread (T : Code → Opts → Nat → Factory) (s : State Opts Factory) (t : Tid) :
+def stepThread (T : Code → Opts → Nat → Option Factory) (s : State Opts Factory) (t : Tid) :
     State Opts Factory :=
   match s.threads[t]? with
   | none => s
@@ -261,12 +267,12 @@ inductive Label where
 /-- One transition.  `gc c` (the code object dies, its weak reference callback removes the entry) is
 possible only when no function with that code object is alive, i.e. no thread has a current or future
 request on it; otherwise the label is a no-op. -/
-def step (T : Code → Opts → Nat → Factory) (s : State Opts Factory) : Label → State Opts Factory
+def step (T : Code → Opts → Nat → Option Factory) (s : State Opts Factory) : Label → State Opts Factory
   | .thr t => stepThread T s t
   | .gc c => if s.threads.any (fun th => th.needs c) then s else { s with outer := ogc c s.outer }
 
 /-- Execution under an arbitrary schedule (fair or not). -/
-def run (T : Code → Opts → Nat → Factory) (s : State Opts Factory) (sched : List Label) :
+def run (T : Code → Opts → Nat → Option Factory) (s : State Opts Factory) (sched : List Label) :
     State Opts Factory :=
   sched.foldl (step T) s
 
@@ -306,7 +312,7 @@ inductive SLabel where
 
 variable {Opts Factory : Type} [BEq Opts]
 
-def sstep (T : Code → Opts → Nat → Factory) (s : SState Opts Factory) : SLabel → SState Opts Factory
+def sstep (T : Code → Opts → Nat → Option Factory) (s : SState Opts Factory) : SLabel → SState Opts Factory
   | .serve t =>
     match s.threads[t]? with
     | none => s
@@ -318,14 +324,17 @@ def sstep (T : Code → Opts → Nat → Factory) (s : SState Opts Factory) : SL
         | some f =>
           { s with threads := s.threads.set t { todo := rest, results := th.results ++ [(r, some f)] } }
         | none =>
-          let f := T r.code r.opts r.env.sig
-          { table := fun c o => if c = r.code ∧ (o == r.opts) = true then some f else s.table c o,
-            threads := s.threads.set t { todo := rest, results := th.results ++ [(r, some f)] } }
+          match T r.code r.opts r.env.sig with
+          | some f =>
+            { table := fun c o => if c = r.code ∧ (o == r.opts) = true then some f else s.table c o,
+              threads := s.threads.set t { todo := rest, results := th.results ++ [(r, some f)] } }
+          | none =>
+            { s with threads := s.threads.set t { todo := rest, results := th.results ++ [(r, none)] } }
   | .gc c =>
     if s.threads.any (fun th => th.todo.any (fun r => decide (r.code = c))) then s
     else { s with table := fun c' o => if c' = c then none else s.table c' o }
 
-def srun (T : Code → Opts → Nat → Factory) (s : SState Opts Factory) (l : List SLabel) : SState Opts Factory :=
+def srun (T : Code → Opts → Nat → Option Factory) (s : SState Opts Factory) (l : List SLabel) : SState Opts Factory :=
   l.foldl (sstep T) s
 
 def sinit (progs : List (List (Request Opts))) : SState Opts Factory :=
